@@ -315,6 +315,7 @@ func Run(c *engine.Ctx) {
 
 	// (iii) request sequences with session managers
 	sequences(c, wd, &evals)
+	remoteAddresses(c, wd, &evals)
 	// (iv) two concurrent requests through one wrapper, every interleaving at the session store
 	concurrent(c, wd, &evals)
 
@@ -593,3 +594,37 @@ func NegInit(mechs [][]int, token []byte, gssFrame bool) []byte {
 
 // NegResp builds a NegTokenResp.
 func NegResp(state int64, mech []int, token []byte) []byte { return negResp(state, mech, token) }
+
+// remoteAddresses: a ticket bound to client addresses, presented over connections whose remote address the wrapper
+// can or cannot turn into a host address. It is served only from an address the ticket lists; when the peer's
+// address cannot be established the address requirement is not met and the request is refused.
+func remoteAddresses(c *engine.Ctx, wd *world, evals *int64) {
+	for _, et := range []int32{18, 23} {
+		for _, r := range []struct {
+			remote string
+			serve  bool
+		}{{"10.0.0.1:4321", true}, {"10.0.0.2:4321", false}, {"@", false}, {"", false}, {"[fe80::1%eth0]:443", false}, {"10.0.0.1", false}, {"localhost:80", false}, {"[::1]:80", false}} {
+			cs := apworld.Base(et)
+			cs.CAddr = []krbmsg.HostAddress{apworld.AddrMatch}
+			m, err := wd.w.Mint(cs)
+			if err != nil {
+				engine.Fatal("mint: %v", err)
+			}
+			service.VerifResetReplayCache()
+			vclock.Set(apworld.T0)
+			*evals++
+			o := wd.serveWith(wd.handler(nil), r.remote, neg(negInit([][]int{oidKRB5}, krb5Tok([]byte{1, 0}, m.APReq), true)), "")
+			rec := map[string]interface{}{"etype": et, "remote_addr": r.remote, "ticket_bound_to": "10.0.0.1"}
+			switch {
+			case o.Panic != "":
+				c.Violate("remote", "panic:remote-address", map[string]interface{}{"panic": o.Panic}, rec)
+			case o.InnerRan && !r.serve:
+				c.Violate("remote", "inner-handler-ran-for-address-bound-ticket-from-unestablished-address", map[string]interface{}{"outcome": o}, rec)
+			case !o.InnerRan && r.serve:
+				c.Violate("remote", "authenticated-request-refused:address-bound-ticket-from-its-address", map[string]interface{}{"outcome": o}, rec)
+			default:
+				c.Distinct(fmt.Sprintf("remote/%d/%s/%v", et, r.remote, o.InnerRan))
+			}
+		}
+	}
+}
